@@ -8,3 +8,49 @@ package publicip
 //@ iface Fetcher.GetIP
 //@ ensures[fetch.clock]  now() >= old(now())
 //@ modifies ghost clock
+
+// One exchange with one provider (C18): transport and body-read failures are retryable errors; a client error (4xx) and
+// a body that is not an address are permanent for this provider (wrapped in *backoff.PermanentError, at which
+// backoff.Retry stops); otherwise the parsed address is returned. ghost(http.*) describe the exchange that happened.
+//@ func handleRequest
+//@ safety C18
+//@ requires[pre.nonnil]       client != nil && req != nil
+//@ ensures[C18.http.atom]     (ret1 != nil) == (ret0 == nil)
+//@ ensures[C18.http.once]     ghost(http.n) == old(ghost(http.n)) + 1
+//@ ensures[C18.http.transport] ghost(http.doErr) ==> ret1 != nil && !typeis(ret1, *backoff.PermanentError)
+//@ ensures[C18.http.read]     !ghost(http.doErr) && ghost(http.readErr) ==> ret1 != nil && !typeis(ret1, *backoff.PermanentError)
+//@ ensures[C18.http.client]   !ghost(http.doErr) && !ghost(http.readErr) && ghost(http.status) >= 400 && ghost(http.status) < 500 ==> ret1 != nil && typeis(ret1, *backoff.PermanentError)
+//@ ensures[C18.http.invalid]  !ghost(http.doErr) && !ghost(http.readErr) && !(ghost(http.status) >= 400 && ghost(http.status) < 500) && !ghost(http.parsed) ==> ret1 != nil && typeis(ret1, *backoff.PermanentError)
+//@ ensures[C18.http.ok]       !ghost(http.doErr) && !ghost(http.readErr) && !(ghost(http.status) >= 400 && ghost(http.status) < 500) && ghost(http.parsed) ==> ret1 == nil && ret0 != nil
+//@ modifies ghost clock, ghost http.doErr, ghost http.readErr, ghost http.status, ghost http.parsed, ghost http.n
+
+// backoff.Retry and context timeouts are library behaviour: the per-provider attempt is assumed to yield an address or an
+// error, never both.
+//@ assume func getPublicIPUsingIPChecker
+//@ trusted retries handleRequest through backoff.Retry under a 2s context (library control flow outside the verifier's reach)
+//@ ensures[pub.one.atom]  (ret1 != nil) == (ret0 == nil)
+//@ modifies ghost clock, ghost http.doErr, ghost http.readErr, ghost http.status, ghost http.parsed, ghost http.n
+
+// Provider iteration (C18): providers are asked one at a time in list order; the first address obtained is returned at
+// once; only if every provider failed is an error returned.
+//@ func GetPublicIP
+//@ safety C18
+//@ ensures[C18.pub.atom]    (ret1 != nil) == (ret0 == nil)
+//@ ensures[C18.pub.first]   ret1 == nil ==> ncalls(getPublicIPUsingIPChecker) >= old(ncalls(getPublicIPUsingIPChecker)) + 1 && ret0 == lastres(getPublicIPUsingIPChecker, 0) && lastres(getPublicIPUsingIPChecker, 1) == nil && lastarg(getPublicIPUsingIPChecker, dest) == ipCheckers[ncalls(getPublicIPUsingIPChecker) - old(ncalls(getPublicIPUsingIPChecker)) - 1]
+//@ ensures[C18.pub.all]     ret1 != nil ==> ncalls(getPublicIPUsingIPChecker) == old(ncalls(getPublicIPUsingIPChecker)) + len(ipCheckers)
+//@ ensures[C18.pub.bound]   ncalls(getPublicIPUsingIPChecker) <= old(ncalls(getPublicIPUsingIPChecker)) + len(ipCheckers)
+//@ modifies ghost clock, ghost http.doErr, ghost http.readErr, ghost http.status, ghost http.parsed, ghost http.n
+//@ loop 1 invariant[order]  0 <= range_i && range_i <= len(ipCheckers) && ncalls(getPublicIPUsingIPChecker) == old(ncalls(getPublicIPUsingIPChecker)) + range_i
+//@ loop 1 step[C18.pub.order] ncalls(getPublicIPUsingIPChecker) == iter(ncalls(getPublicIPUsingIPChecker)) + 1 && lastarg(getPublicIPUsingIPChecker, dest) == ipCheckers[ncalls(getPublicIPUsingIPChecker) - old(ncalls(getPublicIPUsingIPChecker)) - 1] && lastres(getPublicIPUsingIPChecker, 1) != nil
+
+// Cached public IP (C18): a live entry is returned without asking any provider; a failure is not cached.
+//@ func (*PublicIPFetcher).GetIP
+//@ safety C18
+//@ requires[pre.nonnil]        p != nil
+//@ requires[pre.cache.type]    cached("source_public_ip") ==> cachedAs("source_public_ip", []byte)
+//@ ensures[C18.pubip.atom]     ret1 != nil ==> ret0 == nil
+//@ ensures[C18.pubip.hit]      old(cached("source_public_ip")) ==> ncalls(GetPublicIP) == old(ncalls(GetPublicIP)) && ret1 == nil
+//@ ensures[C18.pubip.miss]     !old(cached("source_public_ip")) ==> ncalls(GetPublicIP) == old(ncalls(GetPublicIP)) + 1
+//@ ensures[C18.pubip.nofail]   ret1 != nil ==> ghost(cache.has) == old(ghost(cache.has)) && ghost(cache.ref) == old(ghost(cache.ref)) && ghost(cache.exp) == old(ghost(cache.exp))
+//@ ensures[C18.pubip.store]    !old(cached("source_public_ip")) && ret1 == nil ==> cached("source_public_ip") && cachedAs("source_public_ip", []byte)
+//@ modifies ghost clock, ghost http.doErr, ghost http.readErr, ghost http.status, ghost http.parsed, ghost http.n, ghost cache.has, ghost cache.tag, ghost cache.ref, ghost cache.exp
